@@ -156,6 +156,15 @@ def v2_parse_frame(ctx):
                     check_edge_returns(r, b, f, bb, e.dst, "other frame::Error (%s)" % ",".join(labs), lambda c, o: c == "err", "Err")
     if not seen_inner:
         r.unrec(f, "test of Frame::check's error variant", where(b, cbb), "no switch on the Err payload of Frame::check found")
+    # "need more bytes" is only ever declared by the completeness check
+    inc_edges = set()
+    for bb, info in variant_switches(b, lambda o: True):
+        if on_check_err(info["on"]):
+            for e in b.succ[bb]:
+                if info["arms"].get(e.dst) == ["Incomplete"]:
+                    inc_edges.add((e.src, e.dst))
+    stray = [(c, o, rb) for c, d, rb in ret_classes(b, 0, lambda e: e.kind == "unwind" or (e.src, e.dst) in inc_edges) for o in [ret_origin(b, d)] if is_ok_none(c, o)]
+    r.add(f, "Ok(None) ('read more') is returned only on Frame::check's Incomplete edge", bool(inc_edges) and not stray, where(b, stray[0][2]) if stray else where(b, cbb), "" if not stray else "a path returns Ok(None) without the completeness check having said Incomplete: a complete frame can sit in the buffer undecoded (short frames such as `+\\r\\n`)")
     if ok_dst is None:
         r.unrec(f, "Ok edge of Frame::check", where(b, cbb), "not found")
         return r
@@ -248,6 +257,14 @@ def v6_write_frame_flushes(ctx):
     c2 = {c for c, d, rb in ret_classes(b, 0, lambda e: e.kind in ("unwind", "ydrop") or (e.src, e.dst) in fok)}
     p = None
     r.add(f, "every Ok return flushed the stream (flush awaited, Ok edge) — unconditionally", bool(fok) and "ok" not in c2, where(b, fl[0][0]) if fl else short_span(b.span), "" if (fok and "ok" not in c2) else "write_frame can return Ok with the reply still in the BufWriter")
+    # nothing is written with a partial-write API whose count is dropped
+    for cb in shipped_bodies(ctx.prog):
+        if not cb.name.startswith("net::connection::"):
+            continue
+        for _, bb, t in calls_in([cb], "tokio::io::AsyncWriteExt::write", "tokio::io::AsyncWriteExt::write_buf", "tokio::io::AsyncWriteExt::write_vectored", "tokio::io::AsyncWrite::poll_write"):
+            r.bad(fam_name(cb), "partial write (%s) on the stream" % strip_generics(t["callee"]).split("::")[-1], where(cb, bb), "`write` may accept only a prefix (large payloads bypass the BufWriter): the tail is silently dropped while header and CRLF are still sent; use write_all")
+    n_wa = len(calls_in([x for x in shipped_bodies(ctx.prog) if x.name.startswith("net::connection::")], "tokio::io::AsyncWriteExt::write_all", "tokio::io::AsyncWriteExt::write_u8"))
+    r.add("net::connection::Connection", "all stream writes use write_all / write_u8 (%d sites)" % n_wa, n_wa >= 10, "src/net/connection.rs")
     # flush after the writes
     for bb, t in fl:
         before = all(bb in reach(b, [wb], blocked_edges=lambda e: e.kind in ("unwind", "ydrop")) for _, wb, _ in ws)
@@ -331,6 +348,19 @@ def v3_read_frame_eof(ctx):
             check_edge_returns(r, b, f, ebb, e.dst, "EOF ∧ buffer empty", is_ok_none, "Ok(None)")
         elif labs == [False]:
             check_edge_returns(r, b, f, ebb, e.dst, "EOF ∧ bytes buffered (inside a frame)", lambda c, o: c == "err", "Err")
+    # each iteration looks at the buffer before reading more: the read is reachable only after parse_frame said "nothing yet"
+    pfc = calls_in([b], "net::connection::Connection::parse_frame")
+    rbs = [bb for _, bb, t in calls_in([b], "tokio::io::AsyncReadExt::read_buf", "tokio::io::AsyncReadExt::read")]
+    none_edges = set()
+    for _, pbb, pt in pfc:
+        for sb in b.live_blocks():
+            inf = b.switch_info(sb)
+            if inf and inf["kind"] == "variant" and set(sum(inf["arms"].values(), [])) >= {"Some", "None"} and origin_mentions(inf["on"], lambda x: x[0] == "call" and x[3] == (b.path, pbb)):
+                for e in b.succ[sb]:
+                    if inf["arms"].get(e.dst) == ["None"]:
+                        none_edges.add((e.src, e.dst))
+    dom = bool(rbs) and bool(none_edges) and all(rb not in reach(b, [0], blocked_edges=lambda e: e.kind in ("unwind", "ydrop") or (e.src, e.dst) in none_edges) for rb in rbs)
+    r.add(f, "the stream is read only after parse_frame found no complete frame in the buffer", dom, where(b, rbs[0]) if rbs else short_span(b.span), "" if dom else "read_frame can go to the socket while a complete frame is already buffered (frames delivered in one segment: the second one blocks or is reported as a reset)")
     # read > 0: back to parse_frame without returning
     pf = {bb for _, bb, _ in calls_in([b], "net::connection::Connection::parse_frame")}
     for e in zfalse:
